@@ -1,12 +1,20 @@
 import FloVerif.Driver.Util
 import FloVerif.Driver.C18
 import FloVerif.Model.Contour
-/-! Correspondence for C17: literal model of the scan iterator and of the tracer against the implementation (exact). -/
+/-! Correspondence for C17: literal model of the rounding stage, of the scan iterator and of the tracer against the
+implementation (exact), for every kind of contour the harness builds (`bitmap` = BoolSampledContour, `bitmap_u8` =
+U8SampledContour, `frac` = a contour given by fractional intercepts, `scaled` = the library's ScaledContour, `round` =
+`rounded_intercepts_on_line` on its own). -/
 namespace Driver.C17
 open Prelude Driver Model Driver.C18
 
+/-- the samples as the harness handed them to the contour type (a flat, row-major vector); '0' is outside, any other
+    hex digit is that non-zero byte value -/
+def parseFlat (s : String) : List Nat := if s == "-" then [] else s.toList.map hexVal
+
+/-- the bitmap the harness meant: row `y` is the slice `[y*w, (y+1)*w)` of the flat vector -/
 def parseBits (w h : Nat) (s : String) : List (List Bool) :=
-  let bs := if s == "-" then [] else s.toList.map (· == '1')
+  let bs := (parseFlat s).map (· != 0)
   (List.range h).map fun y => (bs.drop (y * w)).take w
 
 def sortNats (l : List Nat) : List Nat := l.mergeSort (fun a b => decide (a ≤ b))
@@ -33,30 +41,68 @@ def lexLe : List Nat → List Nat → Bool
 
 def canonLoops (ls : List (List Nat)) : List (List Nat) := (ls.map canonLoop).mergeSort lexLe
 
+abbrev Cells := List ((Nat × Nat) × Nat)
+
+/-- `many` with a linear-time accumulator (the cell and loop lists of a 64×64 bitmap have thousands of entries) -/
+def manyL {β} (n : Nat) (p : P β) : P (List β) := do
+  let mut out := []
+  for _ in [0:n] do
+    out := (← p) :: out
+  return out.reverse
+
+def parseOuts (outs : List String) : Cells × List (List Nat) :=
+  ((do
+    let n ← nat
+    let cells ← manyL n (do let x ← nat; let y ← nat; let c ← nat; return ((x, y), c))
+    let _ ← tok
+    let k ← nat
+    let loops ← manyL k (do let m ← nat; manyL m nat)
+    return (cells, loops) : P _).run outs).1
+
+/-- the four comparisons of one contour: the model of the scan and of the tracer (run on what the model of the contour
+    type feeds them) and the specification (mixed cells / boundary edges of the bitmap `spec` the contour stands for) -/
+def compare (w : Nat) (modelCells : Cells) (modelLoops : Option (List (List Nat))) (spec : List (List Bool))
+    (outs : List String) : List Out :=
+  let (cells, loops) := parseOuts outs
+  let specCells := Contour.mixedCells w spec
+  let implCanon := canonLoops loops
+  let used := sortNats (loops.flatMap (·.dropLast))
+  let boundary := sortNats (Contour.boundaryEdges w spec)
+  [mk "scan_cells(model iterator)" (modelCells == cells) s!"model={modelCells} impl={cells}",
+   mk "scan_cells(spec: mixed cells)" (specCells == cells) s!"spec={specCells} impl={cells}",
+   mk "loops(model tracer)" (match modelLoops with | some ml => canonLoops ml == implCanon | none => false)
+      s!"model={modelLoops.map canonLoops} impl={implCanon}",
+   mk "loops(spec: every boundary edge once)" (used == boundary) s!"used={used} boundary={boundary}"]
+
+def franges : P (List Contour.FRange) := do
+  let k ← nat
+  manyL k (do let s ← rat; let e ← rat; return (s, e))
+
 def handle (op : String) (ins outs : List String) : List Out :=
   match op with
   | "bitmap" =>
     let ((w, h, bits), _) := (do let w ← nat; let h ← nat; let b ← tok; return (w, h, b) : P _).run ins
-    let rows := parseBits w h bits
-    let parsed := (do
-        let n ← nat
-        let cells ← many n (do let x ← nat; let y ← nat; let c ← nat; return ((x, y), c))
-        let _ ← tok
-        let k ← nat
-        let loops ← many k natList
-        return (cells, loops) : P _).run outs
-    let (cells, loops) := parsed.1
-    let modelCells := Contour.edgeCells w rows
-    let specCells := Contour.mixedCells w rows
-    let modelLoops := Contour.traceContours w rows
-    let implCanon := canonLoops loops
-    let used := sortNats (loops.flatMap (·.dropLast))
-    let boundary := sortNats (Contour.boundaryEdges w rows)
-    [mk "scan_cells(model iterator)" (modelCells == cells) s!"model={modelCells} impl={cells}",
-     mk "scan_cells(spec: mixed cells)" (specCells == cells) s!"spec={specCells} impl={cells}",
-     mk "loops(model tracer)" (match modelLoops with | some ml => canonLoops ml == implCanon | none => false)
-        s!"model={modelLoops.map canonLoops} impl={implCanon}",
-     mk "loops(spec: every boundary edge once)" (used == boundary) s!"used={used} boundary={boundary}"]
+    -- what the code reads out of the sample vector (index computed by the generated `bool_point_index`)
+    let rows := Contour.boolRows w h ((parseFlat bits).map (· != 0))
+    compare w (Contour.edgeCells w rows) (Contour.traceContours w rows) (parseBits w h bits) outs
+  | "bitmap_u8" =>
+    let ((w, h, bits), _) := (do let w ← nat; let h ← nat; let b ← tok; return (w, h, b) : P _).run ins
+    let rows := Contour.u8Rows w h (parseFlat bits)
+    compare w (Contour.edgeCells w rows) (Contour.traceContours w rows) (parseBits w h bits) outs
+  | "frac" | "scaled" =>
+    let ((w, h, bits, lines), _) := (do
+        let w ← nat; let h ← nat; let b ← tok
+        let lines ← manyL h franges
+        return (w, h, b, lines) : P _).run ins
+    let spec := parseBits w h bits
+    let sampled := lines.map (Contour.sampleRow w)
+    mk "intercepts sample to the bitmap" (sampled == spec) s!"sampled={sampled} bitmap={spec}" ::
+      compare w (Contour.edgeCellsFrac w lines) (Contour.traceContoursFrac w lines) spec outs
+  | "round" =>
+    let (l, _) := (franges : P _).run ins
+    let (impl, _) := (do let m ← nat; manyL m (do let s ← nat; let e ← nat; return (s, e)) : P _).run outs
+    let model := Contour.roundFrac l
+    [mk "rounded_intercepts_on_line(model roundFrac)" (model == impl) s!"ranges={l} model={model} impl={impl}"]
   | _ => [mk ("unknown-op " ++ op) false "driver does not know this operation"]
 
 end Driver.C17
